@@ -1832,6 +1832,177 @@ def r9_shared_ir_slots(ctx, rid):
         raise AnalysisError(f"{rid}: no slot range of a shared edge IR found in CircuitTemplate.apply and its helpers (anchor vanished)")
 
 
+# ------------------------------------------------------------------------------------------------
+# R10  every variable record registered in a loop owns its value object
+# ------------------------------------------------------------------------------------------------
+
+_FRESH_CALLS = {"zeros", "ones", "empty", "full", "zeros_like", "ones_like", "empty_like", "full_like", "arange", "linspace", "array", "copy",
+                "deepcopy", "list", "dict", "set", "tolist", "repeat", "tile", "concatenate", "stack", "hstack", "vstack", "eye", "identity",
+                "sorted", "unique", "cumsum", "diff", "round", "abs", "dot", "matmul"}
+_ALIASING_CALLS = {"asarray", "asanyarray", "atleast_1d", "squeeze", "reshape", "ravel", "view", "transpose", "ascontiguousarray"}
+_SCALAR_CALLS = {"float", "int", "bool", "str", "len", "sum", "min", "max", "complex", "tuple", "prod"}
+
+
+def _value_origin(ctx, f, e, loop, depth=0):
+    """Where does the object denoted by `e` come into being, relative to `loop`?
+    'scalar'  an immutable value (number, string, tuple)
+    'fresh'   an object created when the expression is evaluated inside the loop (allocation call, display, comprehension, [x] * n)
+    'element' bound per iteration by the loop itself or computed inside it from such a value
+    'shared'  ONE mutable object allocated by a statement outside the loop (returned with that statement)
+    'other'   a caller's / attribute's object or a form that is not recognised (no conclusion)"""
+    if depth > 5:
+        return "other", None
+    if isinstance(e, ast.Constant) or isinstance(e, ast.JoinedStr):
+        return "scalar", None
+    if isinstance(e, ast.Tuple):
+        return "scalar", None
+    if isinstance(e, ast.UnaryOp):
+        return _value_origin(ctx, f, e.operand, loop, depth + 1)
+    if isinstance(e, (ast.List, ast.Dict, ast.Set, ast.ListComp, ast.DictComp, ast.SetComp)):
+        return "fresh", None
+    if isinstance(e, ast.BinOp):
+        if isinstance(e.op, ast.Mult) and (isinstance(e.left, ast.List) or isinstance(e.right, ast.List)):
+            return "fresh", None
+        kinds = [_value_origin(ctx, f, x, loop, depth + 1)[0] for x in (e.left, e.right)]
+        # arithmetic yields a new object wherever it is evaluated; whether that object is mutable (an array) is not known
+        return ("scalar" if all(k == "scalar" for k in kinds) else "computed"), None
+    if isinstance(e, ast.IfExp):
+        res = [_value_origin(ctx, f, x, loop, depth + 1) for x in (e.body, e.orelse)]
+        for want in ("shared", "other", "element", "computed", "fresh"):
+            for r in res:
+                if r[0] == want:
+                    return r
+        return "scalar", None
+    if isinstance(e, ast.Call):
+        cn = call_name(e)
+        if cn in _SCALAR_CALLS and not isinstance(e.func, ast.Attribute):
+            return "scalar", None
+        if cn in _ALIASING_CALLS:
+            base = e.func.value if isinstance(e.func, ast.Attribute) and not (isinstance(e.func.value, ast.Name) and e.func.value.id in _R.MODULE_ALIASES) \
+                else (e.args[0] if e.args else None)
+            if base is None:
+                return "other", None
+            k, at = _value_origin(ctx, f, base, loop, depth + 1)
+            return ("fresh" if k in ("scalar", "computed") else k), at
+        if cn in _FRESH_CALLS:
+            return "fresh", None
+        return "other", None
+    if isinstance(e, ast.Subscript):
+        k, at = _value_origin(ctx, f, e.value, loop, depth + 1)      # an element / a view of the base
+        if k == "shared" and not isinstance(e.slice, ast.Slice):
+            return "other", None                                     # one element of an outside container: may well be a number
+        return k, at
+    if isinstance(e, ast.Name):
+        if getattr(e, "_parent", None) is None:
+            return "other", None
+        defs = ctx.rd(f).defs_reaching(e)
+        if not defs:
+            return "other", None
+        res = []
+        for d in defs:
+            if isinstance(d, ast.arguments):
+                res.append(("other", None))
+            elif isinstance(d, (ast.For, ast.AsyncFor)):
+                res.append(("element", None) if (d is loop or contains(loop, d)) else ("other", None))
+            elif isinstance(d, (ast.Assign, ast.AnnAssign)):
+                v = assigned_value(d, e.id)
+                if v is None:
+                    res.append(("element", None) if contains(loop, d) else ("other", None))
+                    continue
+                inside = contains(loop, d)
+                k, at = _value_origin(ctx, f, v, loop if inside else d, depth + 1) if inside else _value_origin(ctx, f, v, d, depth + 1)
+                if inside:
+                    res.append((k, at))
+                else:
+                    # created by a statement that runs once for all iterations of the loop
+                    res.append(("shared", d) if k == "fresh" else (("scalar", None) if k == "scalar" else
+                                                                   (("shared", at) if k == "shared" else ("other", None))))
+            elif isinstance(d, ast.AugAssign):
+                res.append(("fresh", None) if contains(loop, d) else ("other", None))
+            else:
+                res.append(("other", None))
+        for want in ("shared", "other", "element", "computed", "fresh"):
+            for r in res:
+                if r[0] == want:
+                    return r
+        return "scalar", None
+    if isinstance(e, ast.Attribute):
+        return "other", None
+    return "other", None
+
+
+def r10_records_own_their_value(ctx, rid):
+    """The lowering registers, in loops over sources / delay chains / edge variables, one variable record `{'value': ..., 'shape': ...}`
+    per generated name.  Each record must own its value object: with vectorize=True the generated code writes into these arrays by
+    index (`x_in0[idx] = ...`), the backend keeps the array it is handed when the dtype already fits (np.asarray returns its argument)
+    and deepcopy preserves sharing, so ONE array allocated in front of the loop and stored under several names makes all those names
+    alias one buffer - later writes overwrite earlier ones (vectorize=False re-binds scalars and does not notice).  Decided with reaching
+    definitions on the inlined views of NetworkGraph._generate_edge_equation, _add_edge_buffer and _add_matrix_delay: for every record
+    whose key varies with an enclosing loop, the object under 'value' is an immutable scalar, is created inside that loop, or is the
+    loop's own element - never a mutable allocation made by a statement outside the loop."""
+    cls = ctx.repo.get_class(IR, "NetworkGraph")
+    n_rec = 0
+    for mname in ("_generate_edge_equation", "_add_edge_buffer", "_add_matrix_delay"):
+        f_orig = get_method(ctx, cls, mname)
+        members = [f_orig]
+        for c in walk_shallow(_R.view(ctx, f_orig).node):
+            if isinstance(c, ast.Call):
+                g = _R.private_helper(ctx, _R.view(ctx, f_orig), c)
+                if g is not None and all(g.qual != m.qual for m in members) and g.name not in _R.VIEW_KEEP:
+                    members.append(g)
+        for fo in members:
+            f = _R.view(ctx, fo)
+            recs = sorted((d for d in ast.walk(f.node) if isinstance(d, ast.Dict) and any(isinstance(k, ast.Constant) and k.value == "value" for k in d.keys)),
+                          key=lambda d: (d.lineno, d.col_offset))
+            for d in recs:
+                val = next(v for k, v in zip(d.keys, d.values) if isinstance(k, ast.Constant) and k.value == "value")
+                # the key the record is registered under
+                p = parent(d)
+                key = None
+                if isinstance(p, ast.Assign) and p.value is d and len(p.targets) == 1 and isinstance(p.targets[0], ast.Subscript):
+                    key = p.targets[0].slice
+                elif isinstance(p, ast.Dict) and any(v is d for v in p.values):
+                    key = p.keys[[i for i, v in enumerate(p.values) if v is d][0]]
+                elif isinstance(p, ast.Call) and call_name(p) == "setdefault" and len(p.args) == 2 and p.args[1] is d:
+                    key = p.args[0]
+                if key is None:
+                    continue
+                loops = [a for a in _anc(d) if isinstance(a, (ast.For, ast.While))]
+                if not loops:
+                    continue
+                rd = ctx.rd(f)
+                Lk = None
+                for L in loops:                     # innermost first
+                    dep = False
+                    for nm in ast.walk(key):
+                        if isinstance(nm, ast.Name) and isinstance(nm.ctx, ast.Load):
+                            for dd in rd.defs_reaching(nm):
+                                if dd is L or (isinstance(dd, ast.AST) and contains(L, dd)):
+                                    dep = True
+                    if dep:
+                        Lk = L
+                        break
+                if Lk is None:
+                    continue                        # the same key in every iteration: one record, nothing to share
+                kind, at = _value_origin(ctx, f, val, Lk)
+                if kind == "other":
+                    continue                        # a caller's object or an unrecognised expression: no conclusion either way
+                n_rec += 1
+                st = stmt_of(ctx.cfg(f), d) or d
+                label = _c16._uniq(ctx, rid, f, f"record value: {norm(key)[:40]}: {norm(val)[:50]}")
+                facts = {"key": norm(key), "value": norm(val), "loop": norm(Lk)[:80], "origin": kind}
+                if kind == "shared":
+                    ctx.violation(rid, f, st, f"the records registered under `{norm(key)}` in the loop `{norm(Lk)[:60]}` all hold the ONE object created by "
+                                              f"`{norm(at)[:70]}` outside that loop as their 'value': the generated variables alias a single buffer, so an "
+                                              f"indexed write to one of them (vectorized code) shows up in all of them", facts, label=label)
+                else:
+                    why = {"scalar": "an immutable scalar", "fresh": "created inside the iteration that registers it",
+                           "computed": "computed inside the iteration that registers it", "element": "this iteration's own element"}[kind]
+                    ctx.ok(rid, f, st, f"the record's value is {why}", facts, label=label, nontrivial=kind != "scalar")
+    if n_rec < 4:
+        raise AnalysisError(f"{rid}: only {n_rec} variable records registered in loops were found (anchor vanished)")
+
+
 RULES = [
     ("C04-R1", r1_collapse_guard, 8),
     ("C04-R2", r2_append_ranges, 9),
@@ -1842,4 +2013,5 @@ RULES = [
     ("C04-R7", r7_merge_key_is_the_operator_graph, 1),
     ("C04-R8", r_perm_identity, 1),
     ("C04-R9", r9_shared_ir_slots, 2),
+    ("C04-R10", r10_records_own_their_value, 6),
 ]
